@@ -159,7 +159,15 @@ class Scenario:
         self.rng = random.Random(spec["seed"])
         self.fmt = MDMF_VERSION if spec["fmt"] == "MDMF" else SDMF_VERSION
         self.dir = tempfile.mkdtemp(prefix="sc", dir=workdir)
-        self.g = Grid(self.dir, num_servers=spec["servers"], k=spec["k"], n=spec["n"], happy=1, seed=spec["seed"])
+        # every third single-writer scenario has read-only servers (readonly_storage = true); the verdicts are about
+        # acknowledged writes vs what is on disk, whatever a server's mode (chosen by a generator of its own so that the
+        # scenario's other random choices stay what they were)
+        ro = ()
+        if spec["kind"] == "single" and spec["seed"] % 3 == 0:
+            r2 = random.Random(spec["seed"] * 7 + 1)
+            ro = tuple(j for j in range(spec["servers"]) if r2.random() < 0.45)
+        spec["readonly"] = list(ro)
+        self.g = Grid(self.dir, num_servers=spec["servers"], k=spec["k"], n=spec["n"], happy=1, seed=spec["seed"], readonly=ro)
         self.g.keypool.i = spec["seed"] % 7
         self.vers = Versions()
         self.events = []
